@@ -573,7 +573,7 @@ example : subCounts (fun _ => .nack) (deliver "s" [.metrics, .transform id, .met
 
 /-- **metrics_handler_once**, the label: success iff the handler returned without error and did not panic -/
 theorem handler_label (h : String) (o : Outcome) :
-    (handlerObs h o).handler = h ∧ ((handlerObs h o).success = true ↔ ∃ n, o = .ok n) := by
+    (handlerObs h o).handler = h ∧ ((handlerObs h o).success = true ↔ (o ≠ .err ∧ o ≠ .panic)) := by
   cases o <;> simp [handlerObs]
 
 /-- the unrepaired middleware (finding D4, fixed by commit "metrics handler middleware labels a panicking handler
@@ -624,45 +624,103 @@ theorem publish_nMetrics (pn topic : String) (k : Nat) (ms : List Msg) (pw : PWo
       · simpa only [ha, if_true] using this
       · simpa only [ha, Bool.false_eq_true, if_false] using this
 
+/-- the subscriber decorators touch only the SUBSCRIBE mark: what the consumer (or a handler) receives carries the
+    publish mark, handler name and publisher name of the inner subscriber's message -/
+theorem deliver_keeps_pub (inner : String) (layers : List SubLayer) (m : Msg) :
+    (deliver inner layers m).1.pubMark = m.pubMark ∧ (deliver inner layers m).1.hName = m.hName ∧
+    (deliver inner layers m).1.pName = m.pName := by
+  induction layers with
+  | nil => simp [deliver]
+  | cons l rest ih =>
+    cases l with
+    | transform f => simpa [deliver] using ih
+    | metrics =>
+      simp only [deliver]
+      split <;> simpa using ih
+
+/-- **a received message is counted on its first Publish**: a fresh message that came through ANY subscriber stack
+    (metrics decorators included – they set the subscribe mark, a different context key) and is then handed, same
+    object, to a metrics publisher decorator over any stack is observed exactly once, with the label of the result -/
+theorem metrics_publish_once_after_receive (subInner pubInner : String) (subLayers : List SubLayer)
+    (rest : List PubLayer) (topic : String) (m : Msg) (tl : List Msg) (w : PWorld) (fresh : m.pubMark = false) :
+    let m' := (deliver subInner subLayers m).1
+    let r := publish pubInner (.metrics :: rest) topic (m' :: tl) w
+    r.2.2.obs = w.obs ++ [⟨orElse m.hName noHandler, orElse m.pName (pubStackName pubInner rest), r.1.isNone⟩] := by
+  have hk := deliver_keeps_pub subInner subLayers m
+  have := metrics_publish_once_partial pubInner rest topic (deliver subInner subLayers m).1 tl w (by rw [hk.1]; exact fresh)
+  simp only at this ⊢
+  rw [this, hk.2.1, hk.2.2]
+
+example : ((publish "p" [.metrics] "t" [(deliver "s" [.metrics, .metrics] { id := 0, md := [] }).1] {}).2.2.obs).length = 1 := by
+  rw [metrics_publish_once_after_receive "s" "p" [.metrics, .metrics] [] "t" { id := 0, md := [] } [] {} rfl]; rfl
+
+/-- whatever a handler returns, the first message of its output has no publish mark and carries the handler's and
+    publisher's names: fresh messages get them from `addHandlerContext`, the consumed message (pass-through) got them
+    from the router's context decorator and only the SUBSCRIBE mark from the metrics subscriber decorators -/
+theorem outputs_head (h pn sn : String) (i ks : Nat) (o : Outcome) (m0 : Msg) (tl : List Msg)
+    (hout : outputsOf h pn sn i (deliver sn (nSubMetrics ks) ⟨i, [], none, false, false, h, pn, sn⟩).1 o = some (m0 :: tl)) :
+    m0.pubMark = false ∧ m0.hName = h ∧ m0.pName = pn := by
+  have hk := deliver_keeps_pub sn (nSubMetrics ks) ⟨i, [], none, false, false, h, pn, sn⟩
+  cases o with
+  | err => simp [outputsOf] at hout
+  | panic => simp [outputsOf] at hout
+  | ok n =>
+    cases n with
+    | zero => simp [outputsOf, produced] at hout
+    | succ n => simp [outputsOf, produced] at hout; rcases hout with ⟨rfl, _⟩; simp
+  | pass pre post =>
+    cases pre with
+    | zero => simp [outputsOf, produced] at hout; rcases hout with ⟨rfl, _⟩; exact hk
+    | succ n => simp [outputsOf, produced] at hout; rcases hout with ⟨rfl, _⟩; simp
+
 /-- one message whose handler fails (error or panic) or succeeds without output: ONE handler observation with the
     right label, ONE subscriber count with the label of the settlement, nothing published, no publish observation -/
 theorem router_step_no_output (h pn sn : String) (kp ks i : Nat) (o : Outcome) (w : RWorld)
-    (ho : o = .err ∨ o = .panic ∨ o = .ok 0) :
+    (ho : outputsOf h pn sn i (deliver sn (nSubMetrics (ks + 1)) ⟨i, [], none, false, false, h, pn, sn⟩).1 o = none ∨
+          outputsOf h pn sn i (deliver sn (nSubMetrics (ks + 1)) ⟨i, [], none, false, false, h, pn, sn⟩).1 o = some []) :
     let w' := routerStep h pn sn kp (ks + 1) 1 i o w
-    let st : Settle := if o = .ok 0 then .ack else .nack
-    w'.hobs = w.hobs ++ [handlerObs h o] ∧ w'.settles = w.settles ++ [st] ∧
-    w'.sobs = w.sobs ++ [⟨orElse h noHandler, orElse sn sn, decide (o = .ok 0)⟩] ∧ w'.pw = w.pw := by
+    let acked : Bool :=
+      (outputsOf h pn sn i (deliver sn (nSubMetrics (ks + 1)) ⟨i, [], none, false, false, h, pn, sn⟩).1 o).isSome
+    w'.hobs = w.hobs ++ [handlerObs h o] ∧ w'.settles = w.settles ++ [if acked then .ack else .nack] ∧
+    w'.sobs = w.sobs ++ [⟨orElse h noHandler, orElse sn sn, acked⟩] ∧ w'.pw = w.pw := by
   have hd := (deliver_nSub sn ks ⟨i, [], none, false, false, h, pn, sn⟩ rfl).1
-  rcases ho with rfl | rfl | rfl <;> simp [routerStep, hd, subCounts]
+  rcases ho with ho | ho <;> simp [routerStep, ho, hd, subCounts, settleAndPublish]
 
 example : (routerStep "h" "P" "S" 2 2 1 7 .panic {}).sobs = [⟨"h", "S", false⟩] ∧
     (routerStep "h" "P" "S" 2 2 1 7 .panic {}).hobs = [⟨"h", false⟩] := by
-  have := router_step_no_output "h" "P" "S" 2 1 7 .panic {} (Or.inr (Or.inl rfl))
+  have := router_step_no_output "h" "P" "S" 2 1 7 .panic {} (Or.inl rfl)
   simp only at this
   rcases this with ⟨h1, _, h3, _⟩
-  rw [h1, h3]; simp [handlerObs, orElse]
+  rw [h1, h3]; simp [handlerObs, orElse, outputsOf]
 
-/-- one message whose handler returns `n + 1` messages: ONE handler observation `success=true` (whatever happens to
-    the output afterwards), ONE Publish call of the wrapped publisher, ONE publish observation labelled with the result
-    of that call, ONE subscriber count: `acked` iff the output was published. Decorators applied `kp + 1` / `ks + 1` times. -/
-theorem router_step_output (h pn sn : String) (kp ks i n : Nat) (w : RWorld) :
-    let w' := routerStep h pn sn (kp + 1) (ks + 1) 1 i (.ok (n + 1)) w
+/-- one message whose handler returns a non-empty output – fresh messages, the consumed message itself (pass-through),
+    or a mix in any order: ONE handler observation `success=true` (whatever happens to the output afterwards), ONE
+    Publish call of the wrapped publisher, ONE publish observation labelled with the result of that call, ONE
+    subscriber count: `acked` iff the output was published. Decorators applied `kp + 1` / `ks + 1` times. -/
+theorem router_step_output (h pn sn : String) (kp ks i : Nat) (o : Outcome) (m0 : Msg) (tl : List Msg) (w : RWorld)
+    (hout : outputsOf h pn sn i (deliver sn (nSubMetrics (ks + 1)) ⟨i, [], none, false, false, h, pn, sn⟩).1 o =
+      some (m0 :: tl)) :
+    let w' := routerStep h pn sn (kp + 1) (ks + 1) 1 i o w
     let fail := w.pw.script.headD false
     let st : Settle := if fail then .nack else .ack
-    w'.hobs = w.hobs ++ [⟨h, true⟩] ∧ w'.settles = w.settles ++ [st] ∧
+    w'.hobs = w.hobs ++ [handlerObs h o] ∧ w'.settles = w.settles ++ [st] ∧
     w'.sobs = w.sobs ++ [⟨orElse h noHandler, orElse sn sn, !fail⟩] ∧
     (∃ ms, w'.pw.calls = w.pw.calls ++ [⟨"out", ms⟩]) ∧
     w'.pw.obs = w.pw.obs ++ [⟨orElse h noHandler, orElse pn (pubStackName pn (nMetrics kp)), !fail⟩] := by
   have hd := (deliver_nSub sn ks ⟨i, [], none, false, false, h, pn, sn⟩ rfl).1
-  have hp := metrics_publish_once_partial pn (nMetrics kp) "out"
-    ⟨1000 * (i + 1), [], none, false, false, h, pn, sn⟩ (produced h pn sn (1000 * (i + 1) + 1) n) w.pw rfl
-  have hn := publish_nMetrics pn "out" (kp + 1) (produced h pn sn (1000 * (i + 1)) (n + 1)) w.pw
+  rcases outputs_head h pn sn i (ks + 1) o m0 tl hout with ⟨hf, hh, hpn⟩
+  have hp := metrics_publish_once_partial pn (nMetrics kp) "out" m0 tl w.pw hf
+  have hn := publish_nMetrics pn "out" (kp + 1) (m0 :: tl) w.pw
   rcases hn with ⟨hres, ms', hcalls⟩
-  simp only [produced, nMetrics_succ] at hp hres hcalls
-  simp only [routerStep, hd, produced, nMetrics_succ, handlerObs]
-  simp only [hp, hres]
+  simp only [nMetrics_succ] at hp hres hcalls
+  simp only [routerStep, hout, hd, settleAndPublish, nMetrics_succ]
+  simp only [hp, hres, hh, hpn]
   refine ⟨by simp, ?_, ?_, ⟨ms', hcalls⟩, ?_⟩ <;>
     cases w.pw.script.headD false <;> simp [subCounts]
+
+example : outputsOf "h" "P" "S" 3 (deliver "S" (nSubMetrics 2) ⟨3, [], none, false, false, "h", "P", "S"⟩).1 (.pass 0 1) =
+    some [⟨3, [], none, false, true, "h", "P", "S"⟩, ⟨4500, [], none, false, false, "h", "P", "S"⟩] := by
+  simp [outputsOf, produced, nSubMetrics, deliver]
 
 /-- **metrics_handler_once** (guarded, finding `handler-middleware-applied-twice` open): with the middleware
     registered ONCE (`km = 1`), over any sequence of handler outcomes (success with or without output, error, panic,
@@ -682,10 +740,7 @@ theorem metrics_handler_once_partial (h pn sn : String) (kp ks : Nat) (outs : Li
     simp only [routerRun]
     rw [ih]
     have : (routerStep h pn sn kp ks 1 i o w).hobs = w.hobs ++ [handlerObs h o] := by
-      cases o with
-      | ok n => cases n <;> simp [routerStep]
-      | err => simp [routerStep]
-      | panic => simp [routerStep]
+      simp [routerStep]
     rw [this]; simp
 
 /-- what the code does for any number of registrations: the middleware has no idempotency mark, EACH of the `km`
@@ -698,11 +753,7 @@ theorem metrics_handler_each_application (h pn sn : String) (kp ks km : Nat) (ou
   | cons o rest ih =>
     simp only [routerRun]
     rw [ih]
-    have : (routerStep h pn sn kp ks km i o w).hobs = w.hobs ++ List.replicate km (handlerObs h o) := by
-      cases o with
-      | ok n => cases n <;> simp [routerStep]
-      | err => simp [routerStep]
-      | panic => simp [routerStep]
+    have : (routerStep h pn sn kp ks km i o w).hobs = w.hobs ++ List.replicate km (handlerObs h o) := rfl
     rw [this]; simp
 
 example : (routerRun "h" "P" "S" 1 1 2 0 [.ok 0, .panic] {}).hobs =
@@ -737,20 +788,24 @@ theorem router_metrics_exact (h pn sn : String) (kp ks : Nat) (outs : List Outco
     have := ih (i + 1) (routerStep h pn sn (kp + 1) (ks + 1) 1 i o w)
     simp only at this
     rcases this with ⟨a1, a2, a3, a4, a5⟩
-    have hcase : (o = .err ∨ o = .panic ∨ o = .ok 0) ∨ ∃ n, o = .ok (n + 1) := by
-      cases o with
-      | err => simp
-      | panic => simp
-      | ok n => cases n <;> simp
-    rcases hcase with ho | ⟨n, rfl⟩
+    have hcase : (outputsOf h pn sn i (deliver sn (nSubMetrics (ks + 1)) ⟨i, [], none, false, false, h, pn, sn⟩).1 o = none ∨
+          outputsOf h pn sn i (deliver sn (nSubMetrics (ks + 1)) ⟨i, [], none, false, false, h, pn, sn⟩).1 o = some []) ∨
+        ∃ m0 tl, outputsOf h pn sn i (deliver sn (nSubMetrics (ks + 1)) ⟨i, [], none, false, false, h, pn, sn⟩).1 o =
+          some (m0 :: tl) := by
+      cases outputsOf h pn sn i (deliver sn (nSubMetrics (ks + 1)) ⟨i, [], none, false, false, h, pn, sn⟩).1 o with
+      | none => simp
+      | some l => cases l <;> simp
+    rcases hcase with ho | ⟨m0, tl, hout⟩
     · have hs := router_step_no_output h pn sn (kp + 1) ks i o w ho
       simp only at hs
+      generalize (outputsOf h pn sn i (deliver sn (nSubMetrics (ks + 1)) ⟨i, [], none, false, false, h, pn, sn⟩).1 o).isSome
+        = acked at hs
       rcases hs with ⟨h1, h2, h3, h4⟩
       rw [h1] at a1; rw [h2] at a2 a4; rw [h3] at a3 a4; rw [h4] at a5
       simp only [List.length_append, List.length_cons, List.length_nil, List.filter_append] at a1 a2 a3 a4 ⊢
       refine ⟨by omega, by omega, by omega, ?_, a5⟩
-      by_cases hk : o = .ok 0 <;> simp [hk] at a4 ⊢ <;> omega
-    · have hs := router_step_output h pn sn kp ks i n w
+      cases acked <;> simp at a4 ⊢ <;> omega
+    · have hs := router_step_output h pn sn kp ks i o m0 tl w hout
       simp only at hs
       generalize w.pw.script.headD false = fail at hs
       rcases hs with ⟨h1, h2, h3, ⟨ms, h4⟩, h5⟩
@@ -759,7 +814,7 @@ theorem router_metrics_exact (h pn sn : String) (kp ks : Nat) (outs : List Outco
       refine ⟨by omega, by omega, by omega, ?_, by omega⟩
       cases fail <;> simp at a4 ⊢ <;> omega
 
-example : (routerRun "h" "P" "S" 2 2 1 0 [.ok 1, .panic, .ok 2, .err] { pw := { script := [false, true] } }).hobs =
+example : (routerRun "h" "P" "S" 2 2 1 0 [.ok 1, .panic, .pass 0 1, .err] { pw := { script := [false, true] } }).hobs =
     [⟨"h", true⟩, ⟨"h", false⟩, ⟨"h", true⟩, ⟨"h", false⟩] := by
   rw [metrics_handler_once_partial]; rfl
 
